@@ -84,47 +84,6 @@ theorem windowSpec_bad (src : Bits) (off len : Option Int)
     windowSpec src off len = .error .value := by
   unfold windowSpec; simp only; rw [if_neg h]
 
-theorem winNeg_false (off len : Option Int) (h : winNegative off len = false) :
-    0 ≤ off.getD 0 ∧ 0 ≤ len.getD 0 := by
-  unfold winNegative at h
-  simp only [Bool.or_eq_false_iff, decide_eq_false_iff_not] at h
-  omega
-
-theorem bitarrayWin_eq_partial_aux (ba : Bits) (off len : Option Int) (hneg : winNegative off len = false) :
-    bitarrayWin ba off len = windowSpec ba off len := by
-  obtain ⟨h0, hl0⟩ := winNeg_false off len hneg
-  obtain ⟨o, ho⟩ := Int.eq_ofNat_of_zero_le h0
-  unfold bitarrayWin
-  simp only [ho]
-  by_cases hgt : (o : Int) > ba.length
-  · rw [if_pos hgt]
-    rw [windowSpec_bad]
-    rw [ho]
-    cases len with
-    | none => simp; omega
-    | some l => simp at hl0 ⊢; omega
-  · rw [if_neg hgt]
-    have hole : o ≤ ba.length := by omega
-    cases len with
-    | none =>
-      simp only
-      rw [pySlice_end _ _ hole]
-      rw [windowSpec_fit ba off none o (ba.length - o) ho (by simp; omega) (by omega)]
-      congr 1
-      symm; apply List.take_of_length_le; simp
-    | some l =>
-      simp only [Option.getD_some] at hl0
-      obtain ⟨k, rfl⟩ := Int.eq_ofNat_of_zero_le hl0
-      simp only
-      by_cases hfit : (o : Int) + (k : Int) > ba.length
-      · rw [if_pos hfit, windowSpec_bad]
-        rw [ho]; simp; omega
-      · rw [if_neg hfit]
-        have : ((o : Int) + (k : Int)) = ((o + k : Nat) : Int) := by push_cast; rfl
-        rw [this, pySlice_nn _ _ _ (by omega) (by omega)]
-        rw [windowSpec_fit ba off (some (k : Int)) o k ho (by simp) (by omega)]
-        congr 2; omega
-
 theorem pySlice_ge {α} (l : List α) (a b : Nat) (hab : a ≤ b) (ha : a ≤ l.length) :
     pySlice l (some (a : Int)) (some (b : Int)) = (l.drop a).take (b - a) := by
   by_cases hb : b ≤ l.length
@@ -169,71 +128,135 @@ theorem fromBytes_take (d : List Nat) (k : Nat) : fromBytes (d.take k) = (fromBy
       simp
       exact (List.take_of_length_le (by simp)).symm
 
-/-- The general branch of `_setbytes_with_truncation` (at least one of offset / length given). -/
-def bytesBody (data : List Nat) (off len : Option Int) : Except Err Bits :=
-  match len with
-  | none => .ok (pySlice (fromBytes data) (some (off.getD 0))
-      (some (off.getD 0 + ((data.length : Int) * 8 - off.getD 0))))
-  | some length =>
-    if length + off.getD 0 > (data.length : Int) * 8 then .error .value
-    else .ok (pySlice (fromBytes data) (some (off.getD 0)) (some (off.getD 0 + length)))
-
-theorem bytesWin_unfold (data : List Nat) (off len : Option Int) (h : off ≠ none ∨ len ≠ none) :
-    bytesWin data off len = bytesBody data off len := by
-  cases off <;> cases len <;> simp at h <;> rfl
-
-theorem bytesBody_eq (data : List Nat) (off len : Option Int) (o : Nat) (ho : off.getD 0 = (o : Int))
-    (hl0 : 0 ≤ len.getD 0) (hb : len = none → o ≤ (fromBytes data).length) :
-    bytesBody data off len = windowSpec (fromBytes data) off len := by
-  have hn : (fromBytes data).length = 8 * data.length := fromBytes_length data
-  have hnI : ((data.length : Int) * 8) = ((fromBytes data).length : Int) := by rw [hn]; push_cast; ring
-  unfold bytesBody
-  rw [ho, hnI]
-  cases len with
-  | none =>
-    have hole := hb rfl
-    simp only
-    have : ((o : Int) + (((fromBytes data).length : Int) - (o : Int))) = (((fromBytes data).length : Nat) : Int) := by omega
-    rw [this, pySlice_nn _ _ _ hole (le_refl _)]
-    rw [windowSpec_fit _ off none o ((fromBytes data).length - o) ho (by simp; omega) (by omega)]
-  | some l =>
-    simp only [Option.getD_some] at hl0
-    obtain ⟨k, rfl⟩ := Int.eq_ofNat_of_zero_le hl0
-    simp only
-    by_cases hfit : (k : Int) + (o : Int) > ((fromBytes data).length : Int)
-    · rw [if_pos hfit, windowSpec_bad]
-      rw [ho]; simp; omega
-    · rw [if_neg hfit]
-      have : ((o : Int) + (k : Int)) = ((o + k : Nat) : Int) := by push_cast; rfl
-      rw [this, pySlice_nn _ _ _ (by omega) (by omega)]
-      rw [windowSpec_fit _ off (some (k : Int)) o k ho (by simp) (by omega)]
-      congr 2; omega
-
-theorem winBeyond_false (n : Nat) (off : Option Int) (o : Nat) (ho : off.getD 0 = (o : Int))
-    (h : winBeyond n off = false) : o ≤ n := by
-  unfold winBeyond at h
-  simp only [decide_eq_false_iff_not, ho] at h
-  omega
-
 theorem windowSpec_all (src : Bits) : windowSpec src none none = .ok src := by
   rw [windowSpec_fit src none none 0 src.length (by simp) (by simp) (by omega)]
   simp
 
-theorem bytesWin_eq_partial_aux (data : List Nat) (off len : Option Int) (hneg : winNegative off len = false)
-    (hbey : len = none → winBeyond (fromBytes data).length off = false) :
+
+theorem negLen_false (len : Option Int) (h : negLen len = false) : ∀ l, len = some l → 0 ≤ l := by
+  intro l hl; subst hl
+  simp only [negLen, decide_eq_false_iff_not] at h
+  omega
+
+theorem negLen_true (len : Option Int) (h : negLen len = true) : ∃ l, len = some l ∧ l < 0 := by
+  cases len with
+  | none => simp [negLen] at h
+  | some l => exact ⟨l, rfl, by simpa [negLen] using h⟩
+
+/-- A negative length never satisfies the specification. -/
+theorem windowSpec_negLen (src : Bits) (off len : Option Int) (h : negLen len = true) :
+    windowSpec src off len = .error .value := by
+  obtain ⟨l, rfl, hl⟩ := negLen_true len h
+  apply windowSpec_bad
+  simp only [Option.getD_some]
+  omega
+
+theorem windowSpec_negOff (src : Bits) (off len : Option Int) (h : off.getD 0 < 0) :
+    windowSpec src off len = .error .value := by
+  apply windowSpec_bad; omega
+
+theorem windowSpec_beyond (src : Bits) (off len : Option Int) (h0 : 0 ≤ off.getD 0) (hl : negLen len = false)
+    (h : off.getD 0 > src.length) : windowSpec src off len = .error .value := by
+  apply windowSpec_bad
+  cases len with
+  | none => simp only [Option.getD_none]; omega
+  | some l => have := negLen_false _ hl l rfl; simp only [Option.getD_some]; omega
+
+/-! ### bitarray= -/
+
+theorem bitarrayWin_eq_aux (ba : Bits) (off len : Option Int) :
+    bitarrayWin ba off len = windowSpec ba off len := by
+  unfold bitarrayWin
+  simp only
+  by_cases h0 : off.getD 0 < 0
+  · rw [if_pos h0, windowSpec_negOff _ _ _ h0]
+  · rw [if_neg h0]
+    cases hnl : negLen len with
+    | true => simp only [if_true]; rw [windowSpec_negLen _ _ _ hnl]
+    | false =>
+      simp only [Bool.false_eq_true, if_false]
+      by_cases hgt : off.getD 0 > (ba.length : Int)
+      · rw [if_pos hgt, windowSpec_beyond _ _ _ (by omega) hnl hgt]
+      · rw [if_neg hgt]
+        obtain ⟨o, ho⟩ := Int.eq_ofNat_of_zero_le (by omega : 0 ≤ off.getD 0)
+        rw [ho] at hgt ⊢
+        have hole : o ≤ ba.length := by omega
+        cases len with
+        | none =>
+          simp only
+          rw [pySlice_end _ _ hole]
+          rw [windowSpec_fit ba off none o (ba.length - o) ho (by simp; omega) (by omega)]
+          congr 1
+          symm; apply List.take_of_length_le; simp
+        | some l =>
+          have hl0 := negLen_false _ hnl l rfl
+          obtain ⟨k, rfl⟩ := Int.eq_ofNat_of_zero_le hl0
+          simp only
+          by_cases hfit : (o : Int) + (k : Int) > ba.length
+          · rw [if_pos hfit, windowSpec_bad]
+            rw [ho]; simp; omega
+          · rw [if_neg hfit]
+            have : ((o : Int) + (k : Int)) = ((o + k : Nat) : Int) := by push_cast; rfl
+            rw [this, pySlice_nn _ _ _ (by omega) (by omega)]
+            rw [windowSpec_fit ba off (some (k : Int)) o k ho (by simp) (by omega)]
+            congr 2; omega
+
+/-! ### bytes= -/
+
+theorem bytesWin_unfold (data : List Nat) (off len : Option Int) (h : ¬ (off = none ∧ len = none)) :
+    bytesWin data off len = bytesGeneral data (off.getD 0) len := by
+  cases off <;> cases len <;> simp at h <;> rfl
+
+theorem bytesGeneral_eq (data : List Nat) (off len : Option Int) :
+    bytesGeneral data (off.getD 0) len = windowSpec (fromBytes data) off len := by
+  have hn : (fromBytes data).length = 8 * data.length := fromBytes_length data
+  have hnI : ((data.length : Int) * 8) = ((fromBytes data).length : Int) := by rw [hn]; push_cast; ring
+  unfold bytesGeneral
+  simp only
+  rw [hnI]
+  by_cases h0 : off.getD 0 < 0
+  · rw [if_pos h0, windowSpec_negOff _ _ _ h0]
+  · rw [if_neg h0]
+    cases hnl : negLen len with
+    | true => simp only [if_true]; rw [windowSpec_negLen _ _ _ hnl]
+    | false =>
+      simp only [Bool.false_eq_true, if_false]
+      by_cases hgt : off.getD 0 > ((fromBytes data).length : Int)
+      · rw [if_pos hgt, windowSpec_beyond _ _ _ (by omega) hnl hgt]
+      · rw [if_neg hgt]
+        obtain ⟨o, ho⟩ := Int.eq_ofNat_of_zero_le (by omega : 0 ≤ off.getD 0)
+        rw [ho] at hgt ⊢
+        have hole : o ≤ (fromBytes data).length := by omega
+        cases len with
+        | none =>
+          simp only
+          have : ((o : Int) + (((fromBytes data).length : Int) - (o : Int))) = (((fromBytes data).length : Nat) : Int) := by omega
+          rw [this, pySlice_nn _ _ _ hole (le_refl _)]
+          rw [windowSpec_fit _ off none o ((fromBytes data).length - o) ho (by simp; omega) (by omega)]
+        | some l =>
+          have hl0 := negLen_false _ hnl l rfl
+          obtain ⟨k, rfl⟩ := Int.eq_ofNat_of_zero_le hl0
+          simp only
+          by_cases hfit : (k : Int) + (o : Int) > ((fromBytes data).length : Int)
+          · rw [if_pos hfit, windowSpec_bad]
+            rw [ho]; simp; omega
+          · rw [if_neg hfit]
+            have : ((o : Int) + (k : Int)) = ((o + k : Nat) : Int) := by push_cast; rfl
+            rw [this, pySlice_nn _ _ _ (by omega) (by omega)]
+            rw [windowSpec_fit _ off (some (k : Int)) o k ho (by simp) (by omega)]
+            congr 2; omega
+
+theorem bytesWin_eq_aux (data : List Nat) (off len : Option Int) :
     bytesWin data off len = windowSpec (fromBytes data) off len := by
-  obtain ⟨h0, hl0⟩ := winNeg_false off len hneg
-  obtain ⟨o, ho⟩ := Int.eq_ofNat_of_zero_le h0
   by_cases hnn : off = none ∧ len = none
   · obtain ⟨rfl, rfl⟩ := hnn
     rw [windowSpec_all]; rfl
-  · rw [bytesWin_unfold data off len (by
-      by_cases h1 : off = none
-      · exact Or.inr (fun h2 => hnn ⟨h1, h2⟩)
-      · exact Or.inl h1)]
-    exact bytesBody_eq data off len o ho hl0 (fun hl => winBeyond_false _ off o ho (hbey hl))
+  · rw [bytesWin_unfold data off len hnn]
+    exact bytesGeneral_eq data off len
 
-/-- The general branch of the BytesIO case of `_setauto`, with `length` already defaulted. -/
+/-! ### BytesIO -/
+
+/-- The arithmetic part of the BytesIO branch, with `length` already defaulted. -/
 def bytesioBody (data : List Nat) (offset0 length : Int) : Except Err Bits :=
   let n : Int := data.length * 8
   let byteoffset := offset0 / 8
@@ -243,11 +266,6 @@ def bytesioBody (data : List Nat) (offset0 length : Int) : Except Err Bits :=
   else
     let chunk := pySlice data (some byteoffset) (some (byteoffset + bytelength))
     .ok (pySlice (fromBytes chunk) (some offset) (some (offset + length)))
-
-theorem bytesioWin_unfold (data : List Nat) (off len : Option Int) (h : off ≠ none ∨ len ≠ none) :
-    bytesioWin data off len =
-      bytesioBody data (off.getD 0) (match len with | none => (data.length : Int) * 8 - off.getD 0 | some l => l) := by
-  cases off <;> cases len <;> simp at h <;> rfl
 
 /-- The byte-offset / bit-offset arithmetic: for `o + L ≤ 8·|data|` the chunk of bytes that is read and the
     bit slice taken from it are exactly bits `o … o+L` of the data. -/
@@ -290,98 +308,123 @@ theorem bytesioBody_bad (data : List Nat) (o : Nat) (L : Int) (h : (o : Int) + L
   have : L + (o : Int) / 8 * 8 + (o : Int) % 8 = L + o := by omega
   rw [this, if_pos (by omega)]
 
-theorem bytesioWin_eq_partial_aux (data : List Nat) (off len : Option Int) (hneg : winNegative off len = false)
-    (hbey : len = none → winBeyond (fromBytes data).length off = false) :
-    bytesioWin data off len = windowSpec (fromBytes data) off len := by
-  obtain ⟨h0, hl0⟩ := winNeg_false off len hneg
-  obtain ⟨o, ho⟩ := Int.eq_ofNat_of_zero_le h0
+theorem bytesioWin_unfold (data : List Nat) (off len : Option Int) (h : ¬ (off = none ∧ len = none)) :
+    bytesioWin data off len = bytesioGeneral data (off.getD 0) len := by
+  cases off <;> cases len <;> simp at h <;> rfl
+
+theorem bytesioGeneral_eq (data : List Nat) (off len : Option Int) :
+    bytesioGeneral data (off.getD 0) len = windowSpec (fromBytes data) off len := by
   have hn : (fromBytes data).length = 8 * data.length := fromBytes_length data
+  have hnI : ((data.length : Int) * 8) = ((fromBytes data).length : Int) := by rw [hn]; push_cast; ring
+  have hbody : ∀ o L : Int, bytesioGeneral data o len =
+      if o < 0 then .error .value else if negLen len = true then .error .value
+      else if o > (data.length : Int) * 8 then .error .value
+      else bytesioBody data o (match len with | none => (data.length : Int) * 8 - o | some l => l) := by
+    intro o _; rfl
+  rw [hbody _ 0, hnI]
+  by_cases h0 : off.getD 0 < 0
+  · rw [if_pos h0, windowSpec_negOff _ _ _ h0]
+  · rw [if_neg h0]
+    cases hnl : negLen len with
+    | true => simp only [if_true]; rw [windowSpec_negLen _ _ _ hnl]
+    | false =>
+      simp only [Bool.false_eq_true, if_false]
+      by_cases hgt : off.getD 0 > ((fromBytes data).length : Int)
+      · rw [if_pos hgt, windowSpec_beyond _ _ _ (by omega) hnl hgt]
+      · rw [if_neg hgt]
+        obtain ⟨o, ho⟩ := Int.eq_ofNat_of_zero_le (by omega : 0 ≤ off.getD 0)
+        rw [ho] at hgt ⊢
+        have hole : o ≤ (fromBytes data).length := by omega
+        cases len with
+        | none =>
+          simp only
+          have : (((fromBytes data).length : Int) - (o : Int)) = ((8 * data.length - o : Nat) : Int) := by omega
+          rw [this, bytesioBody_fit data o _ (by omega)]
+          rw [windowSpec_fit _ off none o (8 * data.length - o) ho (by simp; omega) (by omega)]
+        | some l =>
+          have hl0 := negLen_false _ hnl l rfl
+          obtain ⟨k, rfl⟩ := Int.eq_ofNat_of_zero_le hl0
+          simp only
+          by_cases hfit : o + k ≤ 8 * data.length
+          · rw [bytesioBody_fit data o k hfit]
+            rw [windowSpec_fit _ off (some (k : Int)) o k ho (by simp) (by omega)]
+          · rw [bytesioBody_bad data o k (by omega), windowSpec_bad]
+            rw [ho]; simp; omega
+
+theorem bytesioWin_eq_aux (data : List Nat) (off len : Option Int) :
+    bytesioWin data off len = windowSpec (fromBytes data) off len := by
   by_cases hnn : off = none ∧ len = none
   · obtain ⟨rfl, rfl⟩ := hnn
     rw [windowSpec_all]; rfl
-  · rw [bytesioWin_unfold data off len (by
-      by_cases h1 : off = none
-      · exact Or.inr (fun h2 => hnn ⟨h1, h2⟩)
-      · exact Or.inl h1)]
-    rw [ho]
-    cases len with
-    | none =>
-      have hole := winBeyond_false _ off o ho (hbey rfl)
-      simp only
-      have : ((data.length : Int) * 8 - (o : Int)) = ((8 * data.length - o : Nat) : Int) := by omega
-      rw [this, bytesioBody_fit data o _ (by omega)]
-      rw [windowSpec_fit _ off none o (8 * data.length - o) ho (by simp; omega) (by omega)]
-    | some l =>
-      simp only [Option.getD_some] at hl0
-      obtain ⟨k, rfl⟩ := Int.eq_ofNat_of_zero_le hl0
-      simp only
-      by_cases hfit : o + k ≤ 8 * data.length
-      · rw [bytesioBody_fit data o k hfit]
-        rw [windowSpec_fit _ off (some (k : Int)) o k ho (by simp) (by omega)]
-      · rw [bytesioBody_bad data o k (by omega), windowSpec_bad]
-        rw [ho]; simp; omega
+  · rw [bytesioWin_unfold data off len hnn]
+    exact bytesioGeneral_eq data off len
 
-theorem fileWin_eq_partial_aux (data : List Nat) (off len : Option Int)
-    (hoff : 0 ≤ off.getD 0) (hbey : winBeyond (fromBytes data).length off = false ∨ len ≠ some 0) :
+/-! ### files -/
+
+theorem fileWin_eq_aux (data : List Nat) (off len : Option Int) :
     fileWin data off len = windowSpec (fromBytes data) off len := by
-  obtain ⟨o, ho⟩ := Int.eq_ofNat_of_zero_le hoff
   unfold fileWin
-  simp only [ho]
-  by_cases ho0 : (o : Int) = 0
-  · have ho0' : o = 0 := by omega
-    subst ho0'
-    simp only [Nat.cast_zero, if_true]
-    cases len with
-    | none =>
-      simp only
-      rw [windowSpec_fit _ off none 0 (fromBytes data).length ho (by simp) (by omega)]
-      simp
-    | some l =>
-      simp only
-      by_cases hl : l < 0
-      · rw [if_pos hl, windowSpec_bad]; rw [ho]; simp; omega
-      · rw [if_neg hl]
-        by_cases hl2 : l > ((fromBytes data).length : Int)
-        · rw [if_pos hl2, windowSpec_bad]; rw [ho]; simp; omega
-        · rw [if_neg hl2]
-          obtain ⟨k, rfl⟩ := Int.eq_ofNat_of_zero_le (by omega : 0 ≤ l)
-          rw [windowSpec_fit _ off (some (k : Int)) 0 k ho (by simp) (by omega)]
-          simp
-  · simp only [ho0, if_false]
-    cases len with
-    | none =>
-      simp only
+  simp only
+  by_cases h0 : off.getD 0 < 0
+  · rw [if_pos h0, windowSpec_negOff _ _ _ h0]
+  · rw [if_neg h0]
+    obtain ⟨o, ho⟩ := Int.eq_ofNat_of_zero_le (by omega : 0 ≤ off.getD 0)
+    simp only [ho]
+    by_cases ho0 : (o : Int) = 0
+    · have ho0' : o = 0 := by omega
+      subst ho0'
+      simp only [Nat.cast_zero, if_true]
+      cases len with
+      | none =>
+        simp only
+        rw [windowSpec_fit _ off none 0 (fromBytes data).length ho (by simp) (by omega)]
+        simp
+      | some l =>
+        simp only
+        by_cases hl : l < 0
+        · rw [if_pos hl, windowSpec_bad]; rw [ho]; simp; omega
+        · rw [if_neg hl]
+          by_cases hl2 : l > ((fromBytes data).length : Int)
+          · rw [if_pos hl2, windowSpec_bad]; rw [ho]; simp; omega
+          · rw [if_neg hl2]
+            obtain ⟨k, rfl⟩ := Int.eq_ofNat_of_zero_le (by omega : 0 ≤ l)
+            rw [windowSpec_fit _ off (some (k : Int)) 0 k ho (by simp) (by omega)]
+            simp
+    · simp only [ho0, if_false]
       by_cases hgt : (o : Int) > ((fromBytes data).length : Int)
-      · rw [if_pos hgt, windowSpec_bad]; rw [ho]; simp; omega
-      · rw [if_neg hgt, pySlice_end _ _ (by omega)]
-        rw [windowSpec_fit _ off none o ((fromBytes data).length - o) ho (by simp; omega) (by omega)]
-        congr 1; symm; apply List.take_of_length_le; simp
-    | some l =>
-      simp only
-      by_cases hl : l < 0
-      · have : ((pySlice (fromBytes data) (some (o : Int)) (some ((o : Int) + l))).length : Int) ≠ l := by
-          have := Int.natCast_nonneg (pySlice (fromBytes data) (some (o : Int)) (some ((o : Int) + l))).length
+      · rw [if_pos hgt, windowSpec_bad]
+        rw [ho]
+        cases len with
+        | none => simp; omega
+        | some l =>
+          simp only [Option.getD_some]
           omega
-        rw [if_pos this, windowSpec_bad]; rw [ho]; simp; omega
-      · obtain ⟨k, rfl⟩ := Int.eq_ofNat_of_zero_le (by omega : 0 ≤ l)
-        have hcast : ((o : Int) + (k : Int)) = ((o + k : Nat) : Int) := by push_cast; rfl
-        rw [hcast]
-        by_cases hole : o ≤ (fromBytes data).length
-        · rw [pySlice_ge _ _ _ (by omega) hole]
-          by_cases hfit : o + k ≤ (fromBytes data).length
-          · have hlen : ((((fromBytes data).drop o).take (o + k - o)).length : Int) = (k : Int) := by
-              simp; omega
-            rw [if_neg (by rw [hlen]; simp)]
-            rw [windowSpec_fit _ off (some (k : Int)) o k ho (by simp) (by omega)]
-            congr 2; omega
-          · have hlen : ((((fromBytes data).drop o).take (o + k - o)).length : Int) ≠ (k : Int) := by
-              simp; omega
-            rw [if_pos hlen, windowSpec_bad]; rw [ho]; simp; omega
-        · have hk : k ≠ 0 := by
-            rcases hbey with h | h
-            · exact absurd (winBeyond_false _ off o ho h) hole
-            · intro hk; subst hk; exact h rfl
-          rw [pySlice_beyond _ _ _ (by omega)]
-          rw [if_pos (by simp; omega), windowSpec_bad]; rw [ho]; simp; omega
+      · rw [if_neg hgt]
+        have hole : o ≤ (fromBytes data).length := by omega
+        cases len with
+        | none =>
+          simp only
+          rw [pySlice_end _ _ hole]
+          rw [windowSpec_fit _ off none o ((fromBytes data).length - o) ho (by simp; omega) (by omega)]
+          congr 1; symm; apply List.take_of_length_le; simp
+        | some l =>
+          simp only
+          by_cases hl : l < 0
+          · have : ((pySlice (fromBytes data) (some (o : Int)) (some ((o : Int) + l))).length : Int) ≠ l := by
+              have := Int.natCast_nonneg (pySlice (fromBytes data) (some (o : Int)) (some ((o : Int) + l))).length
+              omega
+            rw [if_pos this, windowSpec_bad]; rw [ho]; simp; omega
+          · obtain ⟨k, rfl⟩ := Int.eq_ofNat_of_zero_le (by omega : 0 ≤ l)
+            have hcast : ((o : Int) + (k : Int)) = ((o + k : Nat) : Int) := by push_cast; rfl
+            rw [hcast, pySlice_ge _ _ _ (by omega) hole]
+            by_cases hfit : o + k ≤ (fromBytes data).length
+            · have hlen : ((((fromBytes data).drop o).take (o + k - o)).length : Int) = (k : Int) := by
+                simp; omega
+              rw [if_neg (by rw [hlen]; simp)]
+              rw [windowSpec_fit _ off (some (k : Int)) o k ho (by simp) (by omega)]
+              congr 2; omega
+            · have hlen : ((((fromBytes data).drop o).take (o + k - o)).length : Int) ≠ (k : Int) := by
+                simp; omega
+              rw [if_pos hlen, windowSpec_bad]; rw [ho]; simp; omega
 
 end BM.C15
